@@ -3,6 +3,7 @@ CONSTANTS
   MaxA = 2
   MaxB = 1
   MaxR = 1
+  MaxC = 1
   DoExport = FALSE
 INVARIANTS InvErrorIffValueCycle InvContent InvEachNode Export
 CHECK_DEADLOCK FALSE
